@@ -16,7 +16,7 @@ COQ = os.path.join(VERIF, "coq")
 OCAML = os.path.join(VERIF, "ocaml")
 HARNESS = os.path.join(VERIF, "harness")
 WORK = os.path.join(VERIF, "work")
-REPO = "/repo"
+REPO = os.environ.get("VERIF_REPO", "/repo")   # overridden only by tools/evalmut.py (scratch copies)
 NCPU = 16
 
 GOENV = dict(os.environ, GOFLAGS="-mod=mod", GOPROXY="off", GOSUMDB="off", GOTOOLCHAIN="local")
@@ -56,6 +56,7 @@ def build_coq(clean=False):
     """Full .vo build of the development (no -vos). Returns the make output."""
     if clean:
         sh("rm -f *.vo *.vok *.vos *.glob .*.aux Makefile Makefile.conf .Makefile.d", cwd=COQ)
+    regenerate_facts()
     if not os.path.exists(os.path.join(COQ, "Makefile")):
         sh("coq_makefile -f _CoqProject -o Makefile", cwd=COQ)
     # -k: a broken proof in one property file must not hide the others; what a check needs is
@@ -64,6 +65,17 @@ def build_coq(clean=False):
     if not os.path.exists(os.path.join(COQ, "Entry.vo")):
         raise BuildError("make (coq model)", out)
     return out
+
+
+def regenerate_facts():
+    """Tie 2: rewrite coq/Generated.v from /repo's current sources (only when it changes, so that
+    make recompiles Tie.v and what depends on it exactly then)"""
+    _, out = sh("go run ./srcscan -coq %s" % REPO, cwd=os.path.join(VERIF, "tools"), env=GOENV)
+    path = os.path.join(COQ, "Generated.v")
+    old = open(path).read() if os.path.exists(path) else None
+    if old != out:
+        with open(path, "w") as f:
+            f.write(out)
 
 
 def build_model():
@@ -82,7 +94,7 @@ def build_harness(race=False):
     """go build always runs: it is the step that ties the checks to /repo's working tree."""
     out = "harness_race" if race else "harness"
     flags = "-race " if race else ""
-    sh("cp /repo/go.sum go.sum && go build -tags verif %s-o %s ." % (flags, out), cwd=HARNESS, env=GOENV)
+    sh("cp %s/go.sum go.sum && go build -tags verif %s-o %s ." % (REPO, flags, out), cwd=HARNESS, env=GOENV)
     return os.path.join(HARNESS, out)
 
 
